@@ -12,10 +12,11 @@ from . import setop_prop as S
 
 ASSUMES = S.ASSUMES
 LEVEL_TEXT = __doc__
-RULES = {"push": "R07.1", "emit": "R07.3", "ctor": "R07.6"}
+RULES = {"push": "R07.1", "emit": "R07.3", "ctor": "R07.6", "partition": "R07.2"}
 
 
 def declare(rep):
+    rep.rule("R07.2", "independent of the tables: no node still to be visited is dropped (left always, right for union), none is pushed twice")
     rep.rule("R07.1", "entries pushed by every arm of the four iterators as specified (incl. the covering prune)")
     rep.rule("R07.3", "emission: the left value iff selected by the operation")
     rep.rule("R07.6", "initial stacks for any two view positions")
